@@ -165,7 +165,24 @@ Theorem C02_op_select : forall o cb t f r s' cs, same_val (PLC t) (PLC f) = fals
   run (if_then_else c (pyop c) (PBool o cb) (PLC t) (PLC f)) s = (inl r, s', cs) -> sat cs -> Sound.isbit p (ew cb) ->
   islc (fun v => (ew cb == 1 /\ v == ew t) \/ (ew cb == 0 /\ v == ew f)) r.
 Proof. exact (op_select_forced Hp w c s). Qed.
+Theorem C02_op_gt : forall x y r s' cs vx vy, run (pyop c OGt (PLC x) (PLC y)) s = (inl r, s', cs) -> sat cs ->
+  2 ^ (Z.of_nat (nbits c) + 1) <= p -> ew x == vx -> ew y == vy -> - 2 ^ Z.of_nat (nbits c) <= vx - vy - 1 < 2 ^ Z.of_nat (nbits c) ->
+  isb (fun b => b == (if vy <? vx then 1 else 0)) r.
+Proof. exact (op_gt_forced Hp w W0 c s G). Qed.
+Theorem C02_op_ge : forall x y r s' cs vx vy, run (pyop c OGe (PLC x) (PLC y)) s = (inl r, s', cs) -> sat cs ->
+  2 ^ (Z.of_nat (nbits c) + 1) <= p -> ew x == vx -> ew y == vy -> - 2 ^ Z.of_nat (nbits c) <= vx - vy < 2 ^ Z.of_nat (nbits c) ->
+  isb (fun b => b == (if vy <=? vx then 1 else 0)) r.
+Proof. exact (op_ge_forced Hp w W0 c s G). Qed.
+Theorem C02_op_ne : forall x y r s' cs, run (pyop c ONe (PLC x) (PLC y)) s = (inl r, s', cs) -> sat cs ->
+  isb (fun b => (ew x == ew y -> b == 0) /\ (~ ew x == ew y -> b == 1)) r.
+Proof. exact (op_ne_forced Hp w W0 c s). Qed.
+Theorem C02_op_truediv : forall x y r s' cs, run (pyop c OTrueDiv (PLC x) (PLC y)) s = (inl r, s', cs) -> sat cs -> islc (fun v => ew y * v == ew x) r.
+Proof. exact (op_truediv_forced w c s G). Qed.
 End C02_model.
+Print Assumptions C02_op_gt.
+Print Assumptions C02_op_ge.
+Print Assumptions C02_op_ne.
+Print Assumptions C02_op_truediv.
 
 Print Assumptions C02_model_lt.
 Print Assumptions C02_op_lt.
